@@ -35,7 +35,7 @@ def loop(invariant=(), decreases=(), index="_i", types=None, modifies=None):
 class Contract:
     def __init__(self, name, params=None, requires=(), ensures=(), raises=(), returns=None, loops=None, modifies=None,
                  ensures_raise=(), props=(), verify_only=False, site_requires=None, status="proved", cases=None, note="", reify=None,
-                 max_paths=400, target=None, elements_are_keys=False, ghost_entry=None, heavy=False):
+                 max_paths=400, target=None, elements_are_keys=False, ghost_entry=None, heavy=False, when=None):
         self.name = name
         self.params = params or {}
         self.requires = [requires] if isinstance(requires, str) else list(requires)
@@ -49,7 +49,7 @@ class Contract:
         self.returns = returns
         self.loops = loops or {}
         self.modifies = modifies or {}
-        self.ensures_raise = list(ensures_raise)
+        self.ensures_raise = ensures_raise if isinstance(ensures_raise, dict) else list(ensures_raise)
         self.props = list(props)
         self.site_requires = site_requires or {}
         self.verify_only = verify_only  # verified, but call sites inline the body instead
@@ -59,10 +59,30 @@ class Contract:
         self.reify = reify
         self.max_paths = max_paths
         self.elements_are_keys = elements_are_keys
+        self.when = when  # optional predicate(bound args dict) selecting this contract at a call site
         self.heavy = heavy  # verified in the thorough tier only (minutes of solver time)
         self.ghost_entry = ghost_entry or {}  # ghost name -> expression evaluated over the pre-state
         self.target = target or name  # the function the contract is about (several contracts may share one)
         self.module_file = None
+
+
+def _raise_clauses(self, reg, exc_cls):
+    """postconditions that hold when exc_cls escapes: a list applies to every exception, a dict
+    maps exception qualnames (matched by subclass) to clause lists ('*' = any)."""
+    er = self.ensures_raise
+    if isinstance(er, dict):
+        out = list(er.get("*", []))
+        for name, clauses in er.items():
+            if name == "*":
+                continue
+            k = reg.resolve(name)
+            if isinstance(k, type) and issubclass(exc_cls, k):
+                out += list(clauses)
+        return out
+    return list(er)
+
+
+Contract.raise_clauses = _raise_clauses
 
 
 class Lemma:
@@ -133,6 +153,23 @@ class Registry:
     def get(self, qualname):
         return self.contracts.get(qualname)
 
+    def get_for_call(self, I, qualname, fn, args, kwargs):
+        """The contract to use at a call site of fn: several contracts may describe one function
+        (target=...), each with a `when` predicate over the concretely known argument shapes."""
+        cands = [c for c in self.contracts.values() if c.target == qualname and not c.verify_only]
+        if not cands:
+            return None
+        if len(cands) == 1 and cands[0].when is None:
+            return cands[0]
+        try:
+            bound = I.bind_args(fn, FnInfo.of(fn).node, args, kwargs)
+        except Exception:
+            return None
+        for c in cands:
+            if c.when is None or c.when(bound):
+                return c
+        return None
+
     def resolve(self, qualname):
         """module.attr.attr -> live object from /repo"""
         parts = qualname.split(".")
@@ -193,18 +230,40 @@ class Registry:
             flag = p.fresh_bool("raises_" + exc_name.rsplit(".", 1)[-1])
             if p.branch(z3.And(flag, cz), note=f"{tag}.raises.{exc_name.rsplit('.', 1)[-1]}"):
                 self._havoc_modifies(I, c, fr)
-                I.assume_clauses(c.ensures_raise, fr)
+                I.assume_clauses(c.raise_clauses(self, self.resolve(exc_name)), fr)
                 I.raise_py(self.resolve(exc_name))
             if mode == "iff":
                 I.assume_ast(ast.UnaryOp(op=ast.Not(), operand=I.clause_ast(cond)), pre)
         self._havoc_modifies(I, c, fr)
         result = I.fresh(c.returns, "ret_" + c.name.rsplit(".", 1)[-1]) if c.returns is not None else None
         fr.locals["result"] = result
-        I.assume_clauses(c.ensures, fr)
+        try:
+            I.assume_clauses(c.ensures, fr)
+            ok = p.feasible(z3.BoolVal(True))
+        except Infeasible:
+            ok = False
+        if not ok:
+            # never continue silently on an inconsistent state: that would make every later
+            # obligation of the caller vacuous
+            raise Unsupported(f"postcondition of {c.name} is inconsistent with the state at the call site "
+                              "(missing 'modifies', or contradictory clauses)")
         return result
 
     def _havoc_modifies(self, I, c, fr):
+        from .interp import _is_mutable_box
+
         for expr, ty in c.modifies.items():
+            if "." not in expr:
+                # a mutable argument (BytesIO, dict, list, bytearray) changed in place by the callee
+                box = fr.locals.get(expr)
+                if box is None:
+                    continue
+                if not _is_mutable_box(box):
+                    raise Unsupported(f"modifies target {expr} is not a mutable box")
+                new = I.havoc_like(box, expr) if ty is None else I.fresh(ty, expr)
+                for slot in type(box).__slots__:
+                    setattr(box, slot, getattr(new, slot))
+                continue
             base, _, attr = expr.rpartition(".")
             obj = I.eval_clause(base, fr, 0)
             if not isinstance(obj, SObj):
@@ -360,7 +419,7 @@ def _run_one(reg, I: Interp, c: Contract, fn, info, case):
                        reify=lambda m: f"escaping {exc.__name__}{where}; trace {' '.join(path.trace[-12:])}")
         else:
             path.prove(z3.Or(*conds), f"{tag}.raises[{exc.__name__}]", kind="raises")
-        I.prove_clauses(c.ensures_raise, fr, f"{tag}.ensures_raise")
+        I.prove_clauses(c.raise_clauses(reg, exc), fr, f"{tag}.ensures_raise[{exc.__name__}]")
         return
     fr.locals["result"] = result
     pre.locals.update(I.ghost)
